@@ -16,7 +16,7 @@ GNext ==
     \/ /\ (\E c \in Committers : Send(c) \/ Rejected(c)) /\ UNCHANGED hist
     \/ /\ (WriterTake \/ WriterNil \/ EnsureRoom \/ Apply \/ FlushStart \/ FlushAdd \/ Compact) /\ UNCHANGED hist
     \/ /\ (CloseStopWriter \/ CloseChan \/ ClosePush \/ CloseStopFlush \/ CloseStopComp) /\ UNCHANGED hist
-    \/ /\ (DropDrain \/ DropStopFlush \/ DropWork \/ DropResume) /\ UNCHANGED hist
+    \/ /\ (DropDrain \/ DropStopFlush \/ DropFilter \/ DropWork \/ DropResume) /\ UNCHANGED hist
 GInit == Init /\ hist = <<>>
 GenSpec == GInit /\ [][GNext]_gvars
 \* a scenario is complete when every client has issued all its calls
